@@ -212,6 +212,9 @@ class StmtMixin:
             attr = self.mangle(st, tgt.attr)
             return self.ev(st, tgt.value, lambda s2, base: self.set_attr(s2, base, attr, v, tgt))
         if isinstance(tgt, (ast.Tuple, ast.List)):
+            if isinstance(v, VAny) and getattr(v, "tag", None) == "pair" and len(tgt.elts) == 2:
+                from .models import _ufun
+                v = VTuple([VInt(_ufun(self, "pair_fst", [INT], INT, v.t)), VInt(_ufun(self, "pair_snd", [INT], INT, v.t))])
             if isinstance(v, VTuple):
                 if len(v.items) != len(tgt.elts):
                     return self.raise_(st, "ValueError", "unpack arity")
@@ -332,6 +335,17 @@ class StmtMixin:
                 return set_some(test.left.id) if positive else set_none(test.left.id)
             if iss:
                 return set_none(test.left.id) if positive else set_some(test.left.id)
+        if isinstance(test, ast.Call) and isinstance(test.func, ast.Name) and test.func.id == "isinstance" \
+                and positive and len(test.args) == 2 and isinstance(test.args[0], ast.Name) \
+                and isinstance(test.args[1], ast.Name):
+            v = st.locals.get(test.args[0].id)
+            ci = self.try_cls(test.args[1].id)
+            if isinstance(v, VRef) and ci is not None:
+                cur = self.try_cls(v.cls)
+                if cur is not None and ci.is_subclass_of(cur) and ci is not cur:
+                    s2 = st.copy()
+                    s2.locals[test.args[0].id] = VRef(v.t, ci.name)
+                    return s2
         if isinstance(test, ast.BoolOp) and isinstance(test.op, ast.And) and positive:
             for v in test.values:
                 st = self.narrow(st, v, True)
